@@ -22,6 +22,7 @@ class HarnessBug(Exception):
 
 RUNNABLE, BLOCKED, SLEEPING, DONE, NEW = "runnable", "blocked", "sleeping", "done", "new"
 QUANTUM = 64
+STALL = "<stall>"          # pseudo-candidate: the running thread is descheduled for `stall_time` virtual seconds
 
 
 class VThread:
@@ -77,7 +78,7 @@ class Runtime:
         self.timer_deviation = timer_deviation
         self.main_sem = _th.Semaphore(0)       # the harness (uncontrolled) thread waits here
         self.log = []
-        self.idle_probe = None                 # callable -> hashable snapshot, for livelock detection
+        self.idle_probe = self.default_probe   # callable -> hashable snapshot, for livelock detection
         self._idle_snapshots = []
         self.replay_error = None
         self.lock_registry = []
@@ -85,6 +86,10 @@ class Runtime:
         self.start_real = None
         self.last_progress = self.now
         self.on_time_advance = None
+        self.final_states = []
+        self.final_locks = []
+        self.stall_time = 3.0                  # longer than every library timer (1 s waits, ticks)
+        self.allow_stall = True
 
     def begin_exploration(self):
         """From here on scheduling points may be deviated from (the handshake prefix stays default)."""
@@ -152,7 +157,14 @@ class Runtime:
         if cur_ok and cur.since_block < QUANTUM:
             cands = [cur] + others
         elif cur_ok:
-            cands = others + [cur]            # fairness quantum: a spinner goes to the back at no cost
+            # fairness quantum: a thread that keeps running without ever blocking (a spinner) goes behind
+            # the others at no cost; when nobody else is runnable, real time would still pass while it
+            # spins, so the earliest timer fires (otherwise a busy loop would freeze the virtual clock)
+            if not others:
+                timed = self._timed()
+                if timed:
+                    others = [timed[0]]
+            cands = others + [cur]
             if others:
                 cur.since_block = 0
         else:
@@ -191,6 +203,10 @@ class Runtime:
             timed = self._timed()
             if timed and timed[0] not in cands:
                 cands = cands + [timed[0]]
+        stallable = (self.exploring and self.allow_stall and cur is not None and cur.state == RUNNABLE
+                     and cur in cands and kind != "stall" and len(self.threads) > 1)
+        if stallable:
+            cands = cands + [STALL]
         idx = len(self.points)
         if idx >= self.max_points:
             self.verdict = "capped"
@@ -204,8 +220,10 @@ class Runtime:
                 self.verdict = "replay-divergence"
                 return None
         chosen = cands[pick]
-        self.points.append(Point(cur.name if cur else "-", kind, label, [c.name for c in cands], pick,
-                                 self.exploring))
+        self.points.append(Point(cur.name if cur else "-", kind, label,
+                                 [c if c is STALL else c.name for c in cands], pick, self.exploring))
+        if chosen is STALL:
+            return STALL
         if chosen.state != RUNNABLE:
             # a blocked/sleeping thread wakes: by predicate, or by (possibly early, if deviated) timeout
             woke_by_pred = chosen.state == BLOCKED and chosen.pred is not None and self._safe_pred(chosen)
@@ -228,8 +246,13 @@ class Runtime:
         except Abort:
             return True
 
+    def default_probe(self):
+        net = getattr(self, "net", None)
+        conns = tuple((len(c.inbox), len(c.outbox), c.state, c.eof) for c in net.connections) if net else ()
+        return (tuple((t.name, t.state, t.wait_label) for t in self.threads if t.state != DONE), conns)
+
     def _idle_check(self, next_deadline):
-        """True when the system has been idling (only timers firing) for 2*Tmax with no change."""
+        """True when the system has been idling (only timers firing) for `idle_window` with no change."""
         snap = self.idle_probe()
         self._idle_snapshots.append((self.now, snap))
         first = None
@@ -270,6 +293,10 @@ class Runtime:
             raise HarnessBug(f"{cur.name} runs without the baton (current={self.current})")
         cur.since_block += 1
         nxt = self._choose(cur, kind, label)
+        if nxt is STALL:
+            # a long preemption: everything else (timers included) proceeds meanwhile
+            self.block("stall", f"{kind}:{label}", pred=None, timeout=self.stall_time)
+            return
         self._transfer(cur, nxt)
 
     def block(self, kind, label, pred=None, timeout=None):
@@ -306,6 +333,10 @@ class Runtime:
     # -- ending an execution ------------------------------------------------------------------------------
     def _finish(self):
         if not self.aborting:
+            # what every thread was doing when the execution ended (before the unwinding)
+            self.final_states = [(t.name, t.state, t.wait_label if t.state != RUNNABLE else None, t.library)
+                                 for t in self.threads]
+            self.final_locks = [(lk.label, lk.owner_name()) for lk in self.lock_registry if lk.locked()]
             self.aborting = True
             if self.verdict is None:
                 self.verdict = "done"
